@@ -17,5 +17,8 @@ void blocks() {
   for (a = 0; a < 3; a++) ;
   switch (a) { default: ; }
   switch (a) { case 1: case 2: break; }
+  switch (a) { }
+  switch (b) { case 1: }
+  switch (b) { case 1: case 2: }
 }
 void main() { nop(); inop(); inop(); a = one(); b = ione(); bnop(); only_semicolon(); only_block(); only_label(); blocks(); }
